@@ -47,8 +47,8 @@ struct Res {
   int32_t left_open; // the operation returned without closing a stream it was given (API operations close both)
 };
 const char *KN[] = {"enc", "dec-genuine", "ver-genuine", "dec-wrongkey", "ver-wrongkey", "dec-tampered", "dec-truncated",
-                    "dec-garbage", "dec-empty", "cli-enc", "cli-dec", "cli-ver", "cli-parse-fail", "enc-echo", "dec-boundary", "dec-badmode", "enc-allocfail"};
-const int NK = 17;
+                    "dec-garbage", "dec-empty", "cli-enc", "cli-dec", "cli-ver", "cli-parse-fail", "enc-echo", "dec-boundary", "dec-badmode", "enc-allocfail", "ver-pipe-input"};
+const int NK = 18;
 
 int g_stale = 0;
 void ev(int kind, int id, long a, long b) {
@@ -126,6 +126,10 @@ Op make_op(vh::Rng &r, int kind, const std::string &dir, int serial) {
   case 8:
     r.fill(o.key, 16);
     break;
+  case 17: // a genuine file presented through a PIPE (not seekable: every fseek fails with ESPIPE)
+    o.F = genuine(r, o.ep, o.P, n % 2000);
+    memcpy(o.key, o.ep.key, 16);
+    break;
   case 15: // genuine file whose cipher-mode byte was changed to another valid / invalid value
     o.F = genuine(r, o.ep, o.P, n);
     memcpy(o.key, o.ep.key, 16);
@@ -194,7 +198,26 @@ Res exec_op(const Op &o) {
   bytes out;
   if (o.argv.empty()) {
     ops::Result x;
-    if (o.kind == 16) {
+    if (o.kind == 17) {
+      int pf[2];
+      if (pipe(pf)) { perror("pipe"); exit(2); }
+      (void)!write(pf[1], o.F.data(), o.F.size()); // < 64 KiB: fits the pipe buffer
+      close(pf[1]);
+      FILE *fi = fdopen(pf[0], "rb");
+      vh::MemFile out;
+      FILE *fo = out.open("w+");
+      uint8_t key[16];
+      memcpy(key, o.key, 16);
+      {
+        Settings st((char)-1, (char)-1, true);
+        runcrypt runner(fi, fo, key, st, (u8_t)o.T);
+        x.ret = runner.execute_verify(o.F.size());
+      }
+      x.out = out.data;
+      x.in_closed = true; // (a real FILE*: closing is checked through the memory streams of the other kinds)
+      x.out_closed = out.closed;
+      if (!out.closed) fclose(fo);
+    } else if (o.kind == 16) {
       vh::MemFile in, out;
       in.data = o.P;
       FILE *fi = in.open("r+"), *fo = out.open("w+");
